@@ -538,6 +538,29 @@ def rule_callers(fx, rep):
                     ok = False
                     rep.violation("C11-CALLERS", f"C11-CALLERS/conditional/{fn.split('::')[-1]}/{p.split('::')[-1]}", f"`{fn}` consults `{p.split('::')[-1]}` only under a condition on the position's `{offending[0][0]}` (`{offending[0][1]}`): "
                                   "the draw rule is switched off for some positions", {"fn": b.name, "file": b.file, "line": t.get("line")})
+                    continue
+                # a condition on the search parameters (remaining depth, window ..) may also switch the tests off - harmless only if
+                # every node it exempts is handed to another function that runs them before any move is made (quiescence at depth
+                # 0). Decided path by path from the exempting edge: a move-making site must not be reachable without passing
+                # such a hand-over, for any value of the remaining depth consistent with the path's own tests on it (seed
+                # C11-6a: `depth > 0 &&` in front of the tests, with the check extension raising depth 0 to 1 afterwards)
+                for (e, pol, w) in guard_conditions(b, cb, expand_named=True):
+                    if any(find_calls(e, q) for q in PREDS):
+                        continue
+                    args_in = {x[1] for x in walk(e) if isinstance(x, tuple) and len(x) >= 2 and x[0] == "arg"}
+                    if not args_in or is_root_exemption(b, e):
+                        continue
+                    n += 1
+                    verdict = exempt_nodes_covered(fx, b, w, [q for q in PREDS])
+                    if verdict is None:
+                        rep.notes.append(f"C11-CALLERS: `{fn}` consults `{p.split('::')[-1]}` under `{show(e)[:60]}`; whether the exempted nodes are covered elsewhere could not be enumerated; not decided")
+                        rep.obligation(True)
+                        continue
+                    rep.obligation(verdict[0])
+                    if not verdict[0]:
+                        ok = False
+                        rep.violation("C11-CALLERS", f"C11-CALLERS/conditional/{fn.split('::')[-1]}/{p.split('::')[-1]}", f"`{fn}` consults `{p.split('::')[-1]}` only under `{show(e)[:60]}`, and a node exempted by it can go on to make moves without the test having been run anywhere ({verdict[1]})",
+                                      {"fn": b.name, "file": b.file, "line": t.get("line")})
     # the draw tests come before the transposition-table probe: a table entry was stored along some other history and knows nothing
     # about repetitions (or the clock) along this one, so a probe that can cut off first answers a drawn node with a stale score
     for fn in ("search::negamax::negamax",):
@@ -559,8 +582,112 @@ def rule_callers(fx, rep):
     rep.rule("C11-CALLERS", n, 6, ok, "both search functions consult the three draw predicates")
 
 
+def is_root_exemption(b, e):
+    """`plies == 0` / `is_root`: the root position is exempt from the draw tests by design"""
+    co = cmp_op(e)
+    if not co:
+        return False
+    x, y = deep_strip(co[1]), deep_strip(co[2])
+    for a, c in ((x, y), (y, x)):
+        if isinstance(a, tuple) and a[0] == "arg" and "plies" in str(a[2:]) and c == ("const", 0):
+            return True
+    return False
+
+
+_COVERING = {}
+
+
+def exempt_nodes_covered(fx, b, where, preds):
+    """(ok, detail) or None. Which values of the u8 `depth` parameter can flow from the exempting edge(s) of switch `where[0]`
+    (the successors other than the guarded one) to a move-making site (make_move / make_null_move / a recursive search call)
+    without first being handed to a function that consults all the predicates? Decided by a forward value-set analysis of
+    `depth` (absint.run): reassignments (`depth += 1`) and every test on it (`depth > 0`, `depth == 0`) are interpreted."""
+    import absint
+    a, v = where
+    t = b.blocks[a]["term"]
+    succs = [tg for (val, tg) in t["targets"]] + [t["otherwise"]]
+    taken = [tg for (val, tg) in t["targets"] if val == v] if v != "otherwise" else [t["otherwise"]]
+    others = [x for x in succs if x not in taken and b.blocks[x]["term"]["k"] != "unreachable"]
+    key = (id(fx), tuple(preds))
+    if key not in _COVERING:
+        cov = set()
+        for name, cb2 in fx.bodies.items():
+            if cb2.kind in ("Fn", "AssocFn") and norm(name).startswith("engine::search::") and \
+                    all(cb2.calls_to(q) or any(cb2.calls_to(w2) for w2 in wrappers_of(fx, q)) for q in preds):
+                cov.add(cb2.name)
+        _COVERING[key] = cov
+    covering = _COVERING[key] - {b.name}
+    movers, handovers = set(), set()
+    for bb, t2 in b.calls():
+        cn = callee_name(t2)
+        nb = fx.body(cn) if cn else None
+        if norm(cn or "").endswith("Game::make_move") or norm(cn or "").endswith("Game::make_null_move") or (nb is not None and nb is b):
+            movers.add(bb)
+        elif nb is not None and nb.name in covering:
+            handovers.add(bb)
+    if not movers:
+        return None
+    # cheap exit: the exempting edge leads nowhere near a move (e.g. `return Err(())`)
+    if not any(m in b.reachable(o, removed_blocks=list(handovers)) for o in others for m in movers):
+        return (True, "")
+    dparam = next((i for i in range(1, b.arg_count + 1) if b.local_name(i) == "depth"), None)
+    if dparam is None or (b.local_ty(dparam) or "") != "u8":
+        return None
+    at_guard = absint.run(b, dparam, 0, absint.FULL, stop={a}).get(a)
+    if not at_guard:
+        return None
+    res = absint.run(b, dparam, a, at_guard, stop=movers | handovers | set(taken))
+    hit = sorted(m for m in movers if res.get(m))
+    if hit:
+        vals = sorted(res[hit[0]])
+        return (False, f"e.g. with remaining depth {vals[0]} on entry to line {b.blocks[hit[0]]['term'].get('line')}")
+    return (True, "")
+
+
+def depth_only(e, dparam):
+    syms = [x for x in walk(e) if isinstance(x, tuple) and x and x[0] in ("arg", "call", "field", "tmp", "var", "index")]
+    return bool(syms) and all(x[0] == "arg" and x[1] == dparam for x in syms)
+
+
+def _dval(e, dparam, d):
+    e = deep_strip(e)
+    if not isinstance(e, tuple) or not e:
+        return None
+    if e[0] == "arg":
+        return d if e[1] == dparam else None
+    if e[0] == "const":
+        return int(e[1]) if isinstance(e[1], (int, bool)) else None
+    if e[0] == "cast":
+        return _dval(e[1], dparam, d)
+    if e[0] == "field" and e[2] == "0":
+        return _dval(e[1], dparam, d)
+    if e[0] == "binop":
+        x, y = _dval(e[2], dparam, d), _dval(e[3], dparam, d)
+        if x is None or y is None:
+            return None
+        op = e[1].replace("WithOverflow", "")
+        return {"Add": x + y, "Sub": x - y, "Mul": x * y, "Eq": int(x == y), "Ne": int(x != y), "Lt": int(x < y), "Le": int(x <= y), "Gt": int(x > y), "Ge": int(x >= y)}.get(op)
+    return None
+
+
+def cond_holds(c, val, dparam, d):
+    x = _dval(c, dparam, d)
+    if x is None:
+        return True
+    if isinstance(val, int):
+        return x == val
+    if isinstance(val, tuple) and val and val[0] == "otherwise":
+        return x not in val[1]
+    return True
+
+
 G = "src/chess/game.rs"
 MUTANTS = [
+    {"name": "draw tests skipped at depth 0, before the check extension (seed C11-6a)", "expect": "C11-CALLERS/conditional/negamax",
+     "edits": [("src/engine/search/negamax.rs", "    if !is_root\n        && (game.is_repeated_position()", "    if !is_root\n        && depth > 0\n        && (game.is_repeated_position()")]},
+    {"name": "benign: draw tests skipped at depth 0 after the check extension (those nodes go to quiescence)", "benign": True,
+     "edits": [("src/engine/search/negamax.rs", "    if !is_root\n        && (game.is_repeated_position()\n            || game.is_stalemate_by_fifty_move_rule()\n            || game.is_stalemate_by_insufficient_material())\n    {\n        return Ok(Eval::DRAW);\n    }\n\n    // Check extension: If we're about to finish searching, but we are in check, we\n    // should keep going.\n    let in_check = game.is_king_in_check();\n    if in_check && depth < MAX_SEARCH_DEPTH {\n        depth += 1;\n    }\n",
+                "    // Check extension: If we're about to finish searching, but we are in check, we\n    // should keep going.\n    let in_check = game.is_king_in_check();\n    if in_check && depth < MAX_SEARCH_DEPTH {\n        depth += 1;\n    }\n\n    if !is_root\n        && depth > 0\n        && (game.is_repeated_position()\n            || game.is_stalemate_by_fifty_move_rule()\n            || game.is_stalemate_by_insufficient_material())\n    {\n        return Ok(Eval::DRAW);\n    }\n")]},
     {"name": "castling word toggled while any right is left (seed C11-5b)", "expect": "C11-KEY/PAIR/try_remove_castle_rights",
      "edits": [("src/chess/game.rs", "        if !castle_rights.can_castle_to_side(castle_rights_side) {\n            return;\n        }\n", "        if !(castle_rights.king_side || castle_rights.queen_side) {\n            return;\n        }\n")]},
     {"name": "scan skipped when the clock exceeds the history length (seed C11-5a)", "expect": "C11-REPKEY/early-return",
